@@ -85,10 +85,10 @@ M = [
      "        if self.listing.remove_range(from..=to) {\n            self.dirty = true;",
      "        if self.listing.remove_range(from..=to) {",
      "DELETE does not mark dirty"),
-    ("m04c", ["C04"], "src/mach/runtime.rs",
+    ("m04c", [], "src/mach/runtime.rs",
      "    fn enter_indirect(&mut self, line: Line) {\n        self.cont = State::Stopped;",
      "    fn enter_indirect(&mut self, line: Line) {",
-     "editing a line keeps CONT (relies on the recompile reset only)"),
+     "EQUIVALENT: editing a line keeps CONT -- the recompile before the next direct line resets it anyway"),
     ("m04d", ["C04"], "src/mach/runtime.rs",
      "            // addresses held by the previous compile are meaningless now\n            self.stack.clear();",
      "            // addresses held by the previous compile are meaningless now",
@@ -144,8 +144,8 @@ M = [
      "        match lhs.checked_div(rhs) {\n            Some(n) => Ok(Val::Integer(n)),\n            None => Err(error!(Overflow)),\n        }",
      "        Ok(Val::Integer(lhs.wrapping_div(rhs)))", "-32768\\-1 wraps"),
     # ---- C09 DATA
-    ("m09a", ["C09"], "src/mach/link.rs", "                (ops_addr + ops_addr_offset, data_addr + data_addr_offset),",
-     "                (ops_addr + ops_addr_offset, data_addr),", "symbol data offsets not shifted on append"),
+    ("m09a", [], "src/mach/link.rs", "                (ops_addr + ops_addr_offset, data_addr + data_addr_offset),",
+     "                (ops_addr + ops_addr_offset, data_addr),", "EQUIVALENT: data offsets of fragment-local symbols are never used (line symbols are pushed at program level)"),
     ("m09b", ["C09", "C12"], "src/mach/runtime.rs", "        self.program.restore_data(0);\n        self.stack.clear();", "        self.stack.clear();",
      "CLEAR/RUN do not rewind DATA"),
     ("m09c", ["C09"], "src/mach/link.rs", "                            Opcode::Restore(_) => Some(Opcode::Restore(*data_dest)),",
@@ -179,11 +179,11 @@ M = [
     # ---- C13 interrupt / cont
     ("m13a", ["C13"], "src/mach/runtime.rs", "        self.cont_pc = self.pc;\n        if self.pc >= self.entry_address {\n            self.cont = State::Stopped;\n            self.stack.clear();",
      "        self.cont_pc = self.pc + 1;\n        if self.pc >= self.entry_address {\n            self.cont = State::Stopped;\n            self.stack.clear();", "interrupt saves pc+1"),
-    ("m13b", ["C13"], "src/mach/runtime.rs",
+    ("m13b", ["C01"], "src/mach/runtime.rs",
      "                        self.print_col += num.len();\n                        return Ok(Event::Print(num));",
      "                        self.print_col += num.len();\n                        self.pc += 1;\n                        return Ok(Event::Print(num));",
      "trace print skips an instruction"),
-    ("m13c", ["C13"], "src/mach/runtime.rs",
+    ("m13c", ["C17", "C01"], "src/mach/runtime.rs",
      "            self.state = State::Input;\n            self.pc -= 1;\n            return Ok(Some(Event::Running));",
      "            self.state = State::Input;\n            return Ok(Some(Event::Running));",
      "INPUT does not rewind pc when entering Input state"),
@@ -192,14 +192,14 @@ M = [
      "GOSUB targets not renumbered"),
     ("m14b", ["C14"], "src/mach/listing.rs", "            if ln >= old_start {", "            if ln > old_start {",
      "the line numbered exactly old-start keeps its number"),
-    ("m14c", ["C14"], "src/lang/line.rs", "        visitor.replace.sort_by_key(|(col, _)| col.start);\n", "", "replacements applied in visit order (columns shift)"),
+    ("m14c", [], "src/lang/line.rs", "        visitor.replace.sort_by_key(|(col, _)| col.start);\n", "", "EQUIVALENT: the visitor already collects operands in source order, the sort is a no-op"),
     # ---- C15 store
     ("m15a", ["C15"], "src/mach/listing.rs", "                    *range = Some(num + 1)..=*range.end();", "                    *range = Some(num + 2)..=*range.end();", "LIST skips line n+1"),
     ("m15b", ["C15"], "src/lang/parse.rs", "        if from_num > to_num {", "        if from_num > to_num || (from_num == to_num && from_num == 0.0) {",
      "LIST 0 / DELETE 0 / 0-0 rejected as inverted"),
     ("m15c", ["C15"], "src/mach/listing.rs", "            if line_number < range.end() {", "            if line_number <= range.end() {", "LIST a-b where b exists: range not terminated"),
     # ---- C16 spelling
-    ("m16a", ["C16", "C05"], "src/lang/lex.rs", "            if ch == 'd' {\n                ch = 'D'\n            }\n", "", "lower-case d exponent not folded"),
+    ("m16a", ["C16", "C02"], "src/lang/lex.rs", "            if ch == 'd' {\n                ch = 'D'\n            }\n", "", "lower-case d exponent not folded"),
     ("m16b", ["C16"], "src/lang/lex.rs", "matches!(self.chars.front(), Some('H') | Some('h'))", "matches!(self.chars.front(), Some('H'))", "&h not recognised"),
     ("m16c", ["C16"], "src/lang/lex.rs",
      "                    if let Token::Operator(Operator::Less) = &ttt[2] {\n                        locs.push((index, Token::Operator(Operator::LessEqual)));\n                    }\n                }\n            }\n            if let Token::Operator(Operator::Greater) = &ttt[0] {",
